@@ -754,6 +754,41 @@ func (c *specCtx) evalCall(n *ECall) Val {
 			c.fail("disjoint needs two slices")
 		}
 		return VBool{Or(Ne(a.Obj, b.Obj), Le(Add(a.Off, a.Len), b.Off), Le(Add(b.Off, b.Len), a.Off), Eq(a.Len, Zero), Eq(b.Len, Zero))}
+	case "mapUnchanged", "mapIsStore", "mapIsDelete":
+		// two-state relations between a map now and in the old state (row equalities, no quantifiers)
+		cur, ok1 := c.eval(n.Args[0]).(VMap)
+		oc := c.sub()
+		oc.heaps = c.oldHeaps
+		old, ok2 := oc.eval(n.Args[0]).(VMap)
+		if !ok1 || !ok2 {
+			c.fail("%s needs a map", id.Name)
+		}
+		pn, vns := mapHeapNames(cur.K, cur.V)
+		ls := leavesOf(cur.V)
+		cs := []*Term{Eq(cur.Ref, old.Ref)}
+		rowP1, rowP0 := c.heapRow(pn, HeapB, cur.Ref), oc.heapRow(pn, HeapB, old.Ref)
+		switch id.Name {
+		case "mapUnchanged":
+			cs = append(cs, Eq(rowP1, rowP0))
+			for i, l := range ls {
+				cs = append(cs, Eq(c.heapRow(vns[i], heapSort(l.sort, true), cur.Ref), oc.heapRow(vns[i], heapSort(l.sort, true), old.Ref)))
+			}
+		case "mapIsStore":
+			kt := keyTerm(c.eval(n.Args[1]))
+			fl := Flatten(c.eval(n.Args[2]))
+			cs = append(cs, Eq(rowP1, Store(rowP0, kt, True)))
+			for i, l := range ls {
+				cs = append(cs, Eq(c.heapRow(vns[i], heapSort(l.sort, true), cur.Ref), Store(oc.heapRow(vns[i], heapSort(l.sort, true), old.Ref), kt, fl[i])))
+			}
+		case "mapIsDelete":
+			kt := keyTerm(c.eval(n.Args[1]))
+			cs = append(cs, Eq(rowP1, Store(rowP0, kt, False)))
+			for i, l := range ls {
+				r1 := c.heapRow(vns[i], heapSort(l.sort, true), cur.Ref)
+				cs = append(cs, Eq(r1, Store(oc.heapRow(vns[i], heapSort(l.sort, true), old.Ref), kt, Select(r1, kt))))
+			}
+		}
+		return VBool{And(cs...)}
 	case "distinctObjects": // the two slices live in different backing arrays (or one of them is empty)
 		a, okA := c.eval(n.Args[0]).(VSlice)
 		b, okB := c.eval(n.Args[1]).(VSlice)
@@ -799,6 +834,32 @@ func (c *specCtx) evalCall(n *ECall) Val {
 			return VBool{BoolT(cnt == 0)}
 		}
 		return VInt{Num(int64(cnt))}
+	case "callArg", "callRes": // callArg(f, n, i): i-th argument / result of the n-th call of function parameter f
+		name := n.Args[0].(*EIdent).Name
+		nth := c.evalInt(n.Args[1])
+		ith := c.evalInt(n.Args[2])
+		if !nth.IsConst() || !ith.IsConst() {
+			c.fail("%s needs constant indices", id.Name)
+		}
+		k := 0
+		for _, cr := range c.st.calls {
+			if cr.target != name {
+				continue
+			}
+			if int64(k) == nth.N.Int64() {
+				vs := cr.args
+				if id.Name == "callRes" {
+					vs = cr.res
+				}
+				if int(ith.N.Int64()) >= len(vs) {
+					c.fail("%s: index out of range", id.Name)
+				}
+				return vs[ith.N.Int64()]
+			}
+			k++
+		}
+		// no such call on this path: an arbitrary value (clauses guard with callCount)
+		return VOpaque{Id: c.e.fresh("nocall", IntS)}
 	case "isErr": // err is some non-nil error
 		return VBool{Ne(c.eval(n.Args[0]).(VErr).Id, Zero)}
 	}
